@@ -10,7 +10,9 @@
 //! After a successful connect the client writes a fixed marker through the returned stream; the
 //! marker must never be visible in the raw bytes of an https/wss request.
 //!
-//! line: `tls <cfg 0|1> <alpn-client -|h2|h11|both> <scheme> <host> <port|-> <peer> <alpn-server -|h2|h11|both> [<uri built by s=parsing a string | p=Uri::builder() from parts> <Host header|->]`
+//! (cfg 2: `with_tls` is called twice - first with a configuration that trusts the CA of the `untrusted` peer, then with the intended
+//!  one: the last configuration is the one in force, so 2 must behave exactly like 1)
+//! line: `tls <cfg 0|1|2> <alpn-client -|h2|h11|both> <scheme> <host> <port|-> <peer> <alpn-server -|h2|h11|both> [<uri built by s=parsing a string | p=Uri::builder() from parts> <Host header|->]`
 //! obs : `<result> <wire none|tls|ascii|other> <leak 0|1> <sni|-> <alpn -|h2|h11> <app 0|1> <namevalid 0|1>`
 //!   result: ok-tls | ok-plain | err-conn | err-hs | err-nodomain | err-name | err-other | timeout | panic | bad-uri
 use crate::rng::Rng;
@@ -29,6 +31,7 @@ use tower::ServiceExt;
 const MARKER: &[u8] = b"PING-hdverif-plaintext-marker\n";
 
 const CA: &[u8] = include_bytes!("../certs/ca.pem");
+const BADCA: &[u8] = include_bytes!("../certs/badca.pem");
 const GOOD: (&[u8], &[u8]) = (include_bytes!("../certs/good.pem"), include_bytes!("../certs/good.key"));
 const OTHER: (&[u8], &[u8]) = (include_bytes!("../certs/othername.pem"), include_bytes!("../certs/othername.key"));
 const UNTRUSTED: (&[u8], &[u8]) = (include_bytes!("../certs/untrusted.pem"), include_bytes!("../certs/untrusted.key"));
@@ -43,7 +46,7 @@ const PEERS: &[&str] = &["good", "good", "good", "good", "othername", "untrusted
 const ALPN: &[&str] = &["-", "-", "h2", "h11", "both"];
 
 pub fn gen(r: &mut Rng, _i: u64) -> String {
-    let cfg = if r.chance(6, 7) { 1 } else { 0 };
+    let cfg = if r.chance(6, 7) { if r.chance(1, 5) { 2 } else { 1 } } else { 0 };
     let port = match r.below(5) { 0 | 1 => "-".to_string(), 2 => "443".into(), 3 => "80".into(), _ => r.range(1, 65535).to_string() };
     let build = if r.chance(1, 3) { "p" } else { "s" };
     let hh = if r.chance(1, 4) { *r.pick(&["other.test", "internal.other.test", "example.com", "localhost:8443", "evil.invalid"]) } else { "-" };
@@ -72,6 +75,9 @@ pub fn exhaustive() -> Vec<String> {
             }
         }
     }
+    for s in &schemes { for h in ["example.com", "localhost", "127.0.0.1"] { for p in ["good", "untrusted", "othername", "plain"] {
+        out.push(format!("tls 2 - {s} {h} - {p} -"));
+    } } }
     for ac in ["-", "h2", "h11", "both"] {
         for asv in ["-", "h2", "h11", "both"] {
             for h in ["example.com", "127.0.0.1", "[::1]", "other.test"] {
@@ -100,9 +106,11 @@ pub fn install() {
     });
 }
 
-pub fn client_config(alpn: &str) -> rustls::ClientConfig {
+pub fn client_config(alpn: &str) -> rustls::ClientConfig { client_config_trusting(CA, alpn) }
+
+pub fn client_config_trusting(ca: &[u8], alpn: &str) -> rustls::ClientConfig {
     let mut roots = rustls::RootCertStore::empty();
-    for c in CertificateDer::pem_slice_iter(CA) {
+    for c in CertificateDer::pem_slice_iter(ca) {
         roots.add(c.unwrap()).unwrap();
     }
     let mut cfg = rustls::ClientConfig::builder().with_root_certificates(roots).with_no_client_auth();
@@ -259,7 +267,8 @@ pub fn run(toks: &[&str]) -> String {
     if toks.len() != 7 && toks.len() != 9 { return "bad-line".into(); }
     let (from_parts, host_hdr) = if toks.len() == 9 { (toks[7] == "p", toks[8]) } else { (false, "-") };
     install();
-    let (cfg, alpnc, scheme, host, port, kind, alpns) = (toks[0] == "1", toks[1], toks[2], toks[3], toks[4], toks[5], toks[6]);
+    let (cfg, alpnc, scheme, host, port, kind, alpns) = (toks[0] == "1" || toks[0] == "2", toks[1], toks[2], toks[3], toks[4], toks[5], toks[6]);
+    let reconfigured = toks[0] == "2";
     let uri = if port == "-" { format!("{scheme}://{host}/p") } else { format!("{scheme}://{host}:{port}/p") };
     let stripped = host.strip_prefix('[').and_then(|h| h.strip_suffix(']')).unwrap_or(host);
     let nv = ServerName::try_from(stripped).is_ok() as u8;
@@ -279,6 +288,7 @@ pub fn run(toks: &[&str]) -> String {
         let raw = Arc::new(Mutex::new(Vec::new()));
         let peer_task = tokio::spawn(peer(kind.to_string(), alpns.to_string(), Tap { io: s, raw: raw.clone() }));
         let mut transport = TlsTransport::new(OneIo(Some(c)));
+        if reconfigured { transport = transport.with_tls(Arc::new(client_config_trusting(BADCA, alpnc))); }
         if cfg { transport = transport.with_tls(Arc::new(client_config(alpnc))); }
         let client = async move {
             let r = tokio::time::timeout(std::time::Duration::from_secs(5), transport.oneshot(parts)).await;
